@@ -141,6 +141,23 @@ Fixpoint close_final_mon (begun after : bool) (late : list nat) (l : list obs) :
 Definition start_of (lz : bool) (evs : list ev) (s0 : st) : Prop :=
   if lz then evs = [] /\ s0 = init0 else reconnect init0 FOk = (s0, evs, None).
 
+(* ---- the cut of the raw log into locked sections (corr/C16_Corr.v [group]) *)
+(* what [group] preserves: it only cuts the boundary events into sections and moves the observations that
+   commute with an unfinished section behind it.  The observations keep their order; every actor's events
+   keep their order and are all there. *)
+Definition is_sec (o : obs) : bool := match o with OSec _ _ | OCloseSec _ => true | _ => false end.
+Definition log_obs (l : list robs) : list obs := flat_map (fun r => match r with RO o => [o] | RE _ _ => [] end) l.
+Definition actor_events (w : nat) (l : list robs) : list ev :=
+  flat_map (fun r => match r with RE w' e => if Nat.eqb w' w then [e] else [] | RO _ => [] end) l.
+Definition sec_evs (w : nat) (o : obs) : list ev :=
+  match o with
+  | OSec g evs => if Nat.eqb g w && negb (Nat.eqb w close_actor) then evs else []
+  | OCloseSec evs => if Nat.eqb w close_actor then evs else []
+  | _ => []
+  end.
+Definition plain (l : list obs) : Prop := Forall (fun o => is_sec o = false) l.
+
+
 (* ---- exhaustive enumeration of the bounded runs of the LTS, for the completeness test of the
    acceptor (proof/C16_Accept.v).  [dfs n ng ini s cl bk bc bs rlog] walks EVERY run of at most [n]
    further moves from [s] over goroutines 0..ng-1 (every enabled Enter fault / Do outcome / Kill /
